@@ -269,35 +269,7 @@ func init() {
 		return setBig(a[0], acc)
 	})
 	reg("(*math/big.Int).Bytes", func(fr *frame, fn *ssa.Function, a []Value) Value {
-		if r := bigRaw(a[0], "Bytes"); r.S.K == KBV {
-			w := (r.S.W + 7) / 8 * 8
-			re := ZExt(r, w)
-			nb := w / 8
-			alts := make([]*Term, nb+1)
-			for n := 0; n <= nb; n++ {
-				// exactly n significant bytes
-				var c *Term
-				if n == nb {
-					c = TTrue
-				} else {
-					c = Eq(Extract(w-1, 8*n, re), BVU(w-8*n, 0))
-				}
-				if n > 0 {
-					c = And(c, Not(Eq(Extract(8*n-1, 8*(n-1), re), BVU(8, 0))))
-				}
-				alts[n] = c
-			}
-			n := fr.p.choose(alts, "big.Bytes length")
-			out := make(SliceV, n)
-			for i := 0; i < n; i++ {
-				k := n - 1 - i
-				out[i] = Extract(8*k+7, 8*k, re)
-			}
-			return out
-		}
-		x := iAbs(bigOf(a[0], "Bytes"))
-		n := bigByteLen(fr, x, 72)
-		return SliceV(bigBytes(x, n))
+		return bigMagBytes(fr, a[0])
 	})
 	reg("(*math/big.Int).FillBytes", func(fr *frame, fn *ssa.Function, a []Value) Value {
 		buf := a[1].(SliceV)
@@ -614,4 +586,39 @@ func bigText(fr *frame, x *Term, base int) Value {
 		}
 	}
 	return mkStr(bs)
+}
+
+// bigMagBytes is (*big.Int).Bytes: the big-endian magnitude without leading
+// zeros; the length is a case split.
+func bigMagBytes(fr *frame, recv Value) SliceV {
+	a := []Value{recv}
+	if r := bigRaw(a[0], "Bytes"); r.S.K == KBV {
+		w := (r.S.W + 7) / 8 * 8
+		re := ZExt(r, w)
+		nb := w / 8
+		alts := make([]*Term, nb+1)
+		for n := 0; n <= nb; n++ {
+			// exactly n significant bytes
+			var c *Term
+			if n == nb {
+				c = TTrue
+			} else {
+				c = Eq(Extract(w-1, 8*n, re), BVU(w-8*n, 0))
+			}
+			if n > 0 {
+				c = And(c, Not(Eq(Extract(8*n-1, 8*(n-1), re), BVU(8, 0))))
+			}
+			alts[n] = c
+		}
+		n := fr.p.choose(alts, "big.Bytes length")
+		out := make(SliceV, n)
+		for i := 0; i < n; i++ {
+			k := n - 1 - i
+			out[i] = Extract(8*k+7, 8*k, re)
+		}
+		return out
+	}
+	x := iAbs(bigOf(a[0], "Bytes"))
+	n := bigByteLen(fr, x, 72)
+	return SliceV(bigBytes(x, n))
 }
